@@ -23,7 +23,7 @@ PROPERTY = "C10"
 RULE = (
     "built-ins: 60 query shapes over length/count/value x children of every JSON kind (array "
     "and object documents); conversions: 39 probe signatures x argument shapes per parameter "
-    "type (10 V, 8 N, 8 L) x placements; the multiset of (function, received arguments) recorded "
+    "type (10 V, 8 N, 12 L) x placements; the multiset of (function, received arguments) recorded "
     "by the real probes must equal the reference model's, and the selected nodes must agree; "
     "distinct by construction; non-trivial = calls actually made (recorded)"
 )
@@ -35,7 +35,8 @@ T = ("V", "L", "N")
 SHAPES = {
     "V": ["1", "'s'", "null", "@", "@.a", "$.a", "@[0]", "fv_v(@.a)", "f_v()", "length(@)"],
     "N": ["@", "@.*", "@..a", "$", "$.a", "@.a", "fn_n(@.*)", "@[?@.a]"],
-    "L": ["@", "@.a", "@.*", "@.a == 1", "@.a && @.b", "fl_l(@.a)", "fn_n(@.*)", "match(@.a, 'a')"],
+    "L": ["@", "@.a", "@.*", "@.a == 1", "@.a && @.b", "fl_l(@.a)", "fn_n(@.*)", "match(@.a, 'a')", "!@.a", "(@.a)",
+          "!(@.a == 1)", "(@.a || @.b)"],
 }
 CHILDREN = [
     0, 1, "", "a", None, False, True, 1.5, [], {}, {"a": 1}, {"a": 0}, {"a": None}, {"a": False},
